@@ -23,7 +23,7 @@ MIN_NONTRIVIAL = {'quick': 5000, 'thorough': 5000}
 
 OPCODE_SETS = ['', 'ED63', 'ED6B', 'ED70', 'ED71', 'IM', 'NEG', 'RETN', 'XYCB', 'ALL']
 ADDRESSES = [0x8000, 65533, 65534, 65535]
-FILLS = [(0x00, 0x00, 0x00), (0x7F, 0x80, 0xFF), (0x12, 0xFE, 0x81)]
+FILLS = [(0x00, 0x00, 0x00), (0x7F, 0x80, 0xFF), (0x12, 0xFE, 0x81), (0x80, 0x7F, 0x00), (0xFF, 0x81, 0x80)]     # first byte = displacement / first operand: both sides of the sign boundary
 
 def sequences():
     for op in range(256):
